@@ -182,4 +182,14 @@ def c05_c(ctx: Ctx):
     return out
 
 
-RULES = [c05_a, c05_b, c05_c]
+@rule("C05-d")
+def c05_d(ctx: Ctx):
+    """Documents are constructed with write_concern=True (same obligation as C10-a)."""
+    from .c10 import c10_a
+    res = c10_a(ctx)
+    for r in res:
+        r.rule = "C05-d"
+    return res
+
+
+RULES = [c05_a, c05_b, c05_c, c05_d]
